@@ -176,6 +176,7 @@ def plan(tier):
             combos.extend(itertools.combinations(range(len(slots)), r))
         for i in range(0, len(combos), 60):
             units.append(('file', si, combos[i:i + 60]))
+    units.append(('orders', 7 if tier == 'quick' else 10))
     nv = len(VENDOR_LINES)
     for a in range(nv):
         units.append(('vendor', a, 2 if tier == 'quick' else 3))
@@ -277,6 +278,47 @@ def _unit_body(unit, tier, acc, timeouts):
             if timeouts[0] >= MAX_TIMEOUTS_PER_UNIT:
                 raise UnitAborted()
         acc.sample({'scale_configuration': cfgs[0]}, 1)
+    elif unit[0] == 'orders':
+        # every legal order of sections (each adjacency the hierarchy
+        # allows, e.g. file metadata directly followed by a new change)
+        def walk(prev, calls):
+            if calls:
+                yield calls
+            if len(calls) >= unit[1]:
+                return
+            for sid in sorted(spec.NEXT[prev]):
+                name = sid.lstrip('.')
+                c = {'change': ['change', None], 'file': ['file', None],
+                     'preamble': ['preamble', 'p\n', None, 2, None, None],
+                     'meta': ['meta', {'k': 'v'}, None],
+                     'diff': ['diff', b'-a\n+b\n', None, None, None]}[name]
+                for x in walk(sid, calls + [c]):
+                    yield x
+        for calls in walk('diffx', []):
+            data, recs = spec.serialize(calls, 'utf-8')
+            text = data.decode('utf-8')
+            headers = ['#%s:' % r['section'] for r in recs]
+            signal.setitimer(signal.ITIMER_REAL, WATCHDOG_S)
+            try:
+                viols = check_file(text, headers)
+            except Timeout:
+                viols = [('lexer-timeout', repr(text[:200]))]
+                timeouts[0] += 1
+            finally:
+                signal.setitimer(signal.ITIMER_REAL, 0)
+            acc.evals += 1
+            acc.states += 1
+            acc.transitions += 1
+            acc.validated += 1
+            acc.nontrivial += 1
+            for key, msg in viols:
+                acc.violation(key + ':order', msg[:600],
+                              {'kind': 'file', 'calls': to_jsonable(calls),
+                               'suffix': ':order'})
+            acc.outcome('ok' if not viols else 'violation')
+            if timeouts[0] >= MAX_TIMEOUTS_PER_UNIT:
+                raise UnitAborted()
+        acc.sample({'legal_orders_up_to': unit[1]}, 1)
     elif unit[0] == 'vendor':
         _, a, depth = unit
         for n in range(0, depth):
@@ -384,6 +426,8 @@ def replay(payload):
             data, recs = spec.serialize(calls, 'utf-8')
             viols = check_file(data.decode('utf-8'),
                                ['#%s:' % r['section'] for r in recs])
+            if payload.get('suffix'):
+                viols = [(k + payload['suffix'], m[:600]) for k, m in viols]
         else:
             viols = []
     except Timeout:
